@@ -29,11 +29,22 @@ def _run_z3(text, timeout_s):
     s = z3.Solver(ctx=ctx)
     s.set("timeout", int(timeout_s * 1000))
     t0 = time.time()
+    # z3's own `timeout` is not honoured inside some quantifier-instantiation loops (observed: > 20 min on a mutant of
+    # Prolongate); a watchdog thread interrupts the context shortly after the budget (the ctypes call releases the GIL)
+    import threading
+    dog = threading.Timer(timeout_s + 3, ctx.interrupt)
+    dog.daemon = True
+    dog.start()
     try:
         s.from_string(text)
         r = s.check()
-    except z3.Z3Exception as e:  # parse error etc.
+    except z3.Z3Exception as e:  # parse error etc.; an interrupted check raises "canceled"
+        dog.cancel()
+        if "cancel" in str(e).lower() or "interrupt" in str(e).lower():
+            return "unknown", "z3", time.time() - t0, "interrupted after the time budget"
         return "error", "z3", time.time() - t0, str(e)
+    finally:
+        dog.cancel()
     dt = time.time() - t0
     if r == z3.unsat:
         return "unsat", "z3", dt, None
